@@ -288,6 +288,9 @@ class ManifestContext:
                         mf.parse_media_file()
                     if mf.representation is None:
                         continue
+                    if mf.representation.content_type != adp_set.content_type:
+                        # another kind of media that (wrongly) shares this track ID
+                        continue
                     adp_set.representations.append(mf.representation)
                 adp_set.compute_av_values()
                 period.adaptationSets.append(adp_set)
